@@ -609,7 +609,7 @@ func (r *reporter) process() {
 
 	r.verifAtRecv()
 	for smet := range r.metCh {
-		verifhook.Log("m3p_got", int64(smet.size), int64(len(mets)), smet.bucketID)
+		r.verifGot(smet)
 		flush := !smet.set && len(mets) > 0
 		if flush || bytes+smet.size > r.freeBytes {
 			r.numMetrics.Add(int64(len(mets)))
